@@ -1,8 +1,48 @@
 (* Findings/C02.v -- the ghost-clipping bias norm formula BEFORE the repair (fix: commit in /repo) is not the
    norm of the per-sample bias gradient; kept as the record of the repaired defect. *)
-From Coq Require Import Reals.
-From OV Require Import Base.Num Base.NumR Model.GhostNorm Proofs.GhostR.
+From Coq Require Import Reals List Lra.
+From OV Require Import Base.Num Base.NumR Base.Py Model.OptimState Gen.Optim Model.ClipNum Model.GhostNorm Proofs.GhostR Proofs.ClipR.
+Import ListNotations.
+Local Open Scope R_scope.
 Theorem C02_ghost_bias_3d_old_refuted :
   exists (L p : nat) (g : nat -> nat -> R), true_norm_sq_bias L p g <> ghost_sq_bias_3d_old L p g.
 Proof. exact ghost_bias_3d_old_refuted. Qed.
 Print Assumptions C02_ghost_bias_3d_old_refuted.
+
+(* OPEN finding rnn-packed-unsorted-sensitivity: C02_flat_sensitivity needs row i of EVERY parameter tensor to belong to example i.
+   When the rows of one tensor are in another order (recurrent layers on a packed batch that is not length-sorted), one example
+   sits in two rows, each clipped separately, and removing it moves the sum by more than C: *)
+(* rows of two parameter tensors that belong to DIFFERENT examples (the recurrent layer's rows in length-sorted order, the
+   other layers' rows in batch order): example 1 = ([9/10], [9/10]) occupies the first tensor of row 1 and the second tensor of row 2 *)
+Theorem C02_row_misalignment_refuted :
+  exists (C : R) (rows_with rows_without : list (list (list R))) (d : list (list R)),
+    0 <= C /\
+    psum (map (flat_clipped C) rows_with) = padd (psum (map (flat_clipped C) rows_without)) d /\
+    C < joint_norm d.
+Proof.
+  exists 1, [[[9/10]; [0]]; [[0]; [9/10]]], [[[0]; [0]]; [[0]; [0]]], [[9/10]; [9/10]].
+  split; [lra|].
+  assert (N0 : joint_norm (T:=R) [[0]; [0]] = 0).
+  { unfold joint_norm, nnorm2, nnorm2sq, nsum, nsq. cbn. replace (0 + 0 * 0) with 0 by lra. rewrite sqrt_0. replace (0 + 0 * 0 + 0 * 0) with 0 by lra. apply sqrt_0. }
+  assert (N1 : joint_norm (T:=R) [[9/10]; [0]] = 9/10).
+  { unfold joint_norm, nnorm2, nnorm2sq, nsum, nsq. cbn. replace (0 + 0 * 0) with 0 by lra. rewrite sqrt_0.
+    replace (0 + 9/10 * (9/10)) with ((9/10) * (9/10)) by lra. rewrite sqrt_square by lra.
+    replace (0 + 9/10 * (9/10) + 0 * 0) with ((9/10) * (9/10)) by lra. apply sqrt_square. lra. }
+  assert (N2 : joint_norm (T:=R) [[0]; [9/10]] = 9/10).
+  { unfold joint_norm, nnorm2, nnorm2sq, nsum, nsq. cbn. replace (0 + 0 * 0) with 0 by lra. rewrite sqrt_0.
+    replace (0 + 9/10 * (9/10)) with ((9/10) * (9/10)) by lra. rewrite sqrt_square by lra.
+    replace (0 + 0 * 0 + 9/10 * (9/10)) with ((9/10) * (9/10)) by lra. apply sqrt_square. lra. }
+  assert (E6 : eps6 <= 1/10) by (unfold eps6; change (IZR (10 ^ 6)) with (IZR 1000000); lra).
+  split.
+  - unfold flat_clipped. cbn [map]. rewrite N0, N1, N2.
+    rewrite (clip_factor_one 1 (9/10)) by lra.
+    rewrite (clip_factor_one 1 0) by lra.
+    unfold psum, pscale, vscale. cbn.
+    assert (L2 : forall a b c d : R, a = c -> b = d -> [[a]; [b]] = [[c]; [d]]) by (intros; subst; reflexivity).
+    apply L2; lra.
+  - unfold joint_norm, nnorm2, nnorm2sq, nsum, nsq. cbn.
+    replace (0 + 9/10 * (9/10)) with ((9/10) * (9/10)) by lra. rewrite sqrt_square by lra.
+    replace (0 + 9/10 * (9/10) + 9/10 * (9/10)) with (162/100) by lra.
+    rewrite <- sqrt_1 at 1. apply sqrt_lt_1_alt. lra.
+Qed.
+Print Assumptions C02_row_misalignment_refuted.
